@@ -53,6 +53,7 @@ type rCase struct {
 	Special string `json:"special,omitempty"` // hand-shaped reference cycles through /Length
 	// one of
 	Toks   []string `json:"toks,omitempty"`
+	Bad    string   `json:"bad,omitempty"`
 	Graph  [][]int  `json:"graph,omitempty"`
 	Fmt    string   `json:"fmt,omitempty"`
 	Faults []rFault `json:"faults,omitempty"`
@@ -495,7 +496,36 @@ func instreamDoc(fmtName string, site int, param string) ([]byte, int, error) {
 	return b, n, err
 }
 
+// "field" faults: one integer rendered by the writer (a number of the document or one the writer computes:
+// /Length, /N, /First, /Size, /W, /Index, /Count, /Columns ...) is replaced BEFORE the file is laid out, so
+// every offset and length stays consistent with the bytes written and exactly that field is wrong - unlike
+// the textual "number" fault, whose longer spellings move everything behind them.
+func fieldDoc(fmtName string, site int, param string) ([]byte, int, error) {
+	n := 0
+	pdfw.IntFault = func(v int64) (string, bool) {
+		n++
+		if n-1 == site {
+			return param, true
+		}
+		return "", false
+	}
+	defer func() { pdfw.IntFault = nil }()
+	b, _, err := c02BaseDoc(fmtName)
+	return b, n, err
+}
+
 func applyFault(fmtName string, b []byte, f rFault, k int) []byte {
+	if f.Kind == "field" {
+		_, n, err := fieldDoc(fmtName, -1, "")
+		if err != nil || n == 0 {
+			return b
+		}
+		nb, _, err := fieldDoc(fmtName, pick(n, f.Site, k), f.Param)
+		if err != nil {
+			return b
+		}
+		return nb
+	}
 	if f.Kind == "instream" {
 		_, n, err := instreamDoc(fmtName, -1, "")
 		if err != nil || n == 0 {
@@ -520,6 +550,10 @@ func applyFault(fmtName string, b []byte, f rFault, k int) []byte {
 func siteCount(fmtName string, b []byte, kind string) int {
 	if kind == "instream" {
 		_, n, _ := instreamDoc(fmtName, -1, "")
+		return n
+	}
+	if kind == "field" {
+		_, n, _ := fieldDoc(fmtName, -1, "")
 		return n
 	}
 	if strings.HasPrefix(fmtName, "pdf") {
@@ -765,10 +799,12 @@ type caseResult struct {
 	Calls  []callOutcome `json:"calls"`
 	Sites  int           `json:"sites,omitempty"`
 	Faulty bool          `json:"faulty"`
+	Skipped bool         `json:"skipped,omitempty"`
 }
 
-func renderToks(ts []string) []byte {
-	m := map[string]string{"name": "/A", "int": "1", "dopen": "<<", "dclose": ">>", "aopen": "[", "aclose": "]", "BAD": ">"}
+func renderToks(ts []string, bad string) []byte {
+	spell := map[string]string{"": ">", "gt": ">", "nameesc": "/A#G0", "namehash": "/A##", "nameend": "/A#", "hexbad": "<4G1>", "rparen": ")", "brace": "}"}[bad]
+	m := map[string]string{"name": "/A", "int": "1", "dopen": "<<", "dclose": ">>", "aopen": "[", "aclose": "]", "BAD": spell}
 	parts := make([]string, len(ts))
 	for i, t := range ts {
 		parts[i] = m[t]
@@ -800,7 +836,7 @@ func c02RunCase(idx int, c *rCase, announce func(sub int)) caseResult {
 			os.Remove(p)
 		}
 	case c.Toks != nil:
-		b := renderToks(c.Toks)
+		b := renderToks(c.Toks, c.Bad)
 		res.Faulty = true
 		res.Calls = append(res.Calls, guarded("core.ParseObject", func() error { _, err := core.NewParser(bytes.NewReader(b)).ParseObject(); return err }))
 		res.Calls = append(res.Calls, guarded("core.ParseIndirectObject", func() error {
@@ -854,12 +890,12 @@ func c02RunCase(idx int, c *rCase, announce func(sub int)) caseResult {
 				k = 0
 			}
 			for _, f := range fs { // faults inside encoded streams rebuild the document: they go first
-				if f.Kind == "instream" {
+				if f.Kind == "instream" || f.Kind == "field" {
 					b = applyFault(c.Fmt, b, f, k)
 				}
 			}
 			for _, f := range fs {
-				if f.Kind != "instream" {
+				if f.Kind != "instream" && f.Kind != "field" {
 					b = applyFault(c.Fmt, b, f, k)
 				}
 			}
@@ -946,7 +982,16 @@ func c02Replay(in, out string) error {
 			}
 			done := map[int]*caseResult{}
 			extra := map[int][]callOutcome{}
+			deaths := 0
 			for len(mine) > 0 {
+				if deaths >= 6 {
+					// enough dead or stalled processes have been reported from this shard; the rest of it is
+					// not run (each further one would cost the full deadline)
+					for _, i := range mine {
+						done[i] = &caseResult{Idx: i, Skipped: true}
+					}
+					break
+				}
 				// shard input
 				fin := filepath.Join(scratch, fmt.Sprintf("c02-shard-%d-%d.ndjson", os.Getpid(), s))
 				fh, _ := os.Create(fin)
@@ -1018,6 +1063,7 @@ func c02Replay(in, out string) error {
 					}
 					extra[cur] = append(extra[cur], callOutcome{Entry: "process", Outcome: oc, Detail: det})
 					done[cur] = &caseResult{Idx: cur, Faulty: true}
+					deaths++
 				}
 				mine = rest
 			}
@@ -1035,6 +1081,11 @@ func c02Judge(i int, raw []byte, r *caseResult) Result {
 	var c rCase
 	json.Unmarshal(raw, &c)
 	res := Result{Case: i, OK: true, Nontrivial: r.Faulty, Key: string(raw), Evals: len(r.Calls)}
+	if r.Skipped {
+		res.What = "not run: skipped after repeated process deaths in its shard"
+		res.Nontrivial = false
+		return res
+	}
 	if r.Sites > 0 {
 		res.Evals = r.Sites * 11
 	}
